@@ -434,11 +434,16 @@ def unzip_eq_enumerate(f):
     return f
 
 
-def slice_loop_body(f, head_re, why):
-    """R13: the function body becomes the BODY of the one loop whose head matches `head_re`; loop variables and the locals the body reads become parameters"""
+def slice_loop_body(f, head_re, why, nth=None, of=None):
+    """R13: the function body becomes the BODY of the one loop whose head matches `head_re` (or of the nth of exactly `of` matches); loop variables and the locals the body reads become parameters"""
     ms = list(re.finditer(head_re, f.body))
-    if len(ms) != 1:
-        raise ExtractError(f"lost anchor in {f.qual}: loop head `{head_re[:60]}` matched {len(ms)}x")
+    if nth is None:
+        if len(ms) != 1:
+            raise ExtractError(f"lost anchor in {f.qual}: loop head `{head_re[:60]}` matched {len(ms)}x")
+    else:
+        if len(ms) != of:
+            raise ExtractError(f"lost anchor in {f.qual}: loop head `{head_re[:60]}` matched {len(ms)}x, expected {of}")
+        ms = [ms[nth]]
     open_ = f.body.index('{', ms[0].end() - 1)
     close = match_brace(f.body, open_)
     dropped = len(f.body) - (close - open_)
